@@ -234,7 +234,6 @@ pub fn gen_c12_data(sh: &mut Shards, o: &Opts) -> serde_json::Value {
     // independently, padding filled with a value ABOVE 2^n - 1 (only visible samples count), and a luma plane that
     // carries a decimation tag of its own (the statement constrains the chroma planes' decimation only)
     let vsizes: Vec<(usize, usize)> = sizes.iter().copied().chain([(32usize, 4usize), (64, 2), (128, 8), (96, 4)]).collect();
-    let mut vk = 0usize;
     for &(w, h) in &vsizes {
         for (sx, sy) in [(0usize, 0usize), (1, 1), (1, 0), (2, 2)] {
             if w % (1 << sx) != 0 || h % (1 << sy) != 0 {
@@ -242,9 +241,11 @@ pub fn gen_c12_data(sh: &mut Shards, o: &Opts) -> serde_json::Value {
             }
             for st in [8u8, 16] {
                 for (xpad, ypad) in [(0usize, 0usize), (1, 1), (17, 17), (0, 3), (5, 0)] {
-                    vk += 1;
                     let pad = xpad.max(ypad);
-                    let (lxd, lyd) = [(0usize, 0usize), (0, 0), (1, 1), (0, 2), (1, 0)][vk % 5];
+                    // drawn independently of the loop counters (a modular pick would tie "16-bit storage, vertical padding only"
+                    // to "in-range padding contents" for ever)
+                    let (lxd, lyd) = [(0usize, 0usize), (0, 0), (1, 1), (0, 2), (1, 0)][rng.below(5) as usize];
+                    let poison: u16 = if rng.below(3) == 0 { 7 } else { 0xffff };
                     let n: u8 = if st == 8 { 8 } else { [9u8, 10, 12, 16][rng.below(4) as usize] };
                     let cfg = Cfg { mc: [1u8, 5, 9, 2][rng.below(4) as usize], tc: [1u8, 13, 2][rng.below(3) as usize], cp: [1u8, 9, 2][rng.below(3) as usize], full: rng.below(2) == 0, n, ssx: sx as u8, ssy: sy as u8 };
                     let mut given: [Vec<u16>; 3] = [Vec::new(), Vec::new(), Vec::new()];
@@ -269,7 +270,7 @@ pub fn gen_c12_data(sh: &mut Shards, o: &Opts) -> serde_json::Value {
                         ($t:ty) => {{
                             let mk = |k: usize| {
                                 let gk = PlaneGeom { w: dims[k].0, h: dims[k].1, xdec: if k == 0 { lxd } else { sx }, ydec: if k == 0 { lyd } else { sy }, xpad, ypad };
-                                make_plane::<$t>(gk, Some(if vk % 2 == 0 { 0xffff } else { 7 }), |x, y| given[k][y * dims[k].0 + x])
+                                make_plane::<$t>(gk, Some(poison), |x, y| given[k][y * dims[k].0 + x])
                             };
                             match Yuv::<$t>::new(Frame { planes: [mk(0), mk(1), mk(2)] }, cfg.yuv_config()) {
                                 Ok(y) => {
